@@ -5,6 +5,7 @@ import (
 	"fmt"
 
 	"github.com/polynetwork/poly/common"
+	"github.com/polynetwork/poly/core/store/ledgerstore"
 	"github.com/polynetwork/poly/core/types"
 	"github.com/polynetwork/poly/merkle"
 
@@ -22,6 +23,16 @@ func execGov(run *kernel.Run) {
 		panic(err)
 	}
 	defer s.Close()
+	if v := run.Plan.C("legacyheight", -1); v >= 0 {
+		old := ledgerstore.VerifLegacyQuorumHeight
+		ledgerstore.VerifLegacyQuorumHeight = uint32(v)
+		defer func() { ledgerstore.VerifLegacyQuorumHeight = old }()
+		if !ledgerstore.VerifKnobPatched {
+			run.Probe("knob_unpatched")
+		} else {
+			run.Probe("strict_quorum_rule_in_force")
+		}
+	}
 	m := NewModel()
 	var sig []byte
 	for i, st := range run.Plan.Steps {
@@ -34,6 +45,8 @@ func execGov(run *kernel.Run) {
 			}
 			h := s.Blocks[len(s.Blocks)-1].Block.Hash()
 			sig = append(sig, h[:]...)
+		case "bad":
+			s.badSubmission(st)
 		case "restart":
 			nd := s.Nodes[int(abs(st.Arg(0)))%len(s.Nodes)]
 			nd.Close()
@@ -109,10 +122,16 @@ func (s *Sim) commitBlock(m *Model, nonce uint64) bool {
 		}
 		run.Probe("block_mixing_success_and_failure")
 	}
+	s.LastTrace = bt
 	res, err := prod.Produce(blk)
 	if err != nil {
+		if s.badSince > 0 {
+			run.Fail("C14", "honest-block-rejected-after-rejected-submission", "after %d rejected submissions the honest block %d (sealed by the set in force) is refused: %v", s.badSince, blk.Header.Height, err)
+			return false
+		}
 		panic(fmt.Sprintf("producer rejected its own block %d: %v", blk.Header.Height, err))
 	}
+	s.badSince = 0
 	// C16: committing execution equals the traced execution
 	if res.Hash != full.Hash || res.CrossStatesRoot != full.CrossStatesRoot || res.MerkleRoot != full.MerkleRoot {
 		run.Fail("C16", "re-execution-differs", "block %d: two executions from the same state differ: digest %x vs %x, cross %x vs %x", blk.Header.Height, res.Hash, full.Hash, res.CrossStatesRoot, full.CrossStatesRoot)
@@ -131,7 +150,11 @@ func (s *Sim) commitBlock(m *Model, nonce uint64) bool {
 		for int(f.Height()) < len(s.Blocks) {
 			b := s.Blocks[f.Height()]
 			if err := f.Sync(b.Block, b.Result.MerkleRoot); err != nil {
-				run.Fail("C16", "replica-rejected-block", "follower %s rejected block %d: %v", f.Name, b.Block.Header.Height, err)
+				if s.badSince > 0 {
+					run.Fail("C14", "honest-block-rejected-after-rejected-submission", "follower %s refuses honest block %d after rejected submissions: %v", f.Name, b.Block.Header.Height, err)
+				} else {
+					run.Fail("C16", "replica-rejected-block", "follower %s rejected block %d: %v", f.Name, b.Block.Header.Height, err)
+				}
 				return false
 			}
 		}
@@ -141,6 +164,8 @@ func (s *Sim) commitBlock(m *Model, nonce uint64) bool {
 		}
 	}
 	s.checkProofs(rec)
+	s.checkLookups(rec)
+	s.noteSet()
 	return true
 }
 
@@ -293,7 +318,28 @@ func init() {
 		{"C34", base + "oracle: pool invariants after every transaction (>=4 active, unique keys and indices, blacklisted keys cannot register) and epoch-change rules (view+1, active->consensus, quitting/black dropped, at most one per block)", map[string]int{"cand": 6, "node": 6, "priv": 3, "chain": 1, "import": 1, "relayer": 1}, []string{"epoch_change"}},
 		{"C35", base + "oracle: the registered record of a chain changes only by an approval taking effect, equals the approved request, and updates/removals stem from a request of the registered owner of the current registration", map[string]int{"chain": 10, "import": 2, "cand": 1, "relayer": 1, "node": 1, "priv": 1}, []string{"approval_took_effect:approvechain", "approval_took_effect:approveupd", "approval_took_effect:approvequit"}},
 	}
+	badSteps := func(kinds []int) func(rng *kernel.RNG, steps []kernel.Step) []kernel.Step {
+		return func(rng *kernel.RNG, steps []kernel.Step) []kernel.Step {
+			var out []kernel.Step
+			for _, st := range steps {
+				if st.Op == "block" {
+					for rng.Chance(0.45) {
+						out = append(out, S("bad", int64(kinds[rng.Intn(len(kinds))]), int64(rng.Intn(3)), int64(rng.Intn(3)), int64(rng.Intn(1000))))
+					}
+				}
+				out = append(out, st)
+			}
+			return out
+		}
+	}
+	extras := map[string]func(rng *kernel.RNG, steps []kernel.Step) []kernel.Step{
+		"C20": addReplays,
+		"C13": badSteps([]int{0, 1, 2, 3, 4, 5, 6, 7, 8, 9, 10, 22}),
+		"C14": badSteps([]int{20, 21, 22, 23, 24, 25, 26, 27, 28, 29, 30, 5, 7, 9}),
+	}
 	defs = append(defs,
+		def{"C13", base + "plus Byzantine submissions before block cuts: the next block damaged in one rule (height, parent, timestamp, block root, stale re-submission, sibling of the tip, wrong state root) or valid, re-sealed by an honest quorum, through AddBlock / ExecuteBlock+SubmitBlock / AddHeaders on any node. oracle: a committed block satisfies every acceptance rule evaluated by a reference (naive RFC 6962 block root); an uncommitted submission leaves every observable unchanged; lookups by height/hash return the committed block and its transactions on every replica; the honest block is accepted afterwards", map[string]int{"chain": 2, "cand": 3, "node": 3, "priv": 2, "import": 2, "relayer": 1}, []string{"bad:wrong-parent", "bad:block-root-flipped", "bad:fork-sibling-of-tip", "bad:resubmit-tip", "valid_submission_accepted:valid-control"}},
+		def{"C14", base + "plus Byzantine seals before block cuts: 0 / threshold-1 / threshold signers, duplicated member, foreign keys, signatures over another hash, bookkeepers without signatures, former and future members around hand-overs, and config-change blocks that fail later (wrong state root / block root). Half of the runs are main net with the legacy-height knob at 0 so that the strict rule N-floor((N-1)/3) is in force, the rest legacy N-floor(6N/7). oracle: committed => distinct members of the set in force with valid signatures >= required; set in force unchanged by uncommitted submissions (the honest block sealed by the old set must still be accepted)", map[string]int{"node": 6, "cand": 6, "priv": 4, "chain": 1, "import": 1, "relayer": 0, "strict": 1}, []string{"bad:one-below-threshold", "bad:duplicated-member", "bad:foreign-keys", "validator_set_changed", "valid_submission_accepted:exactly-threshold", "strict_quorum_rule_in_force", "seal_by_former_members"}},
 		def{"C18", base + "oracle: operator-only operations without the witness of the operator address derived from the pre-state consensus set fail with no writes (except a due epoch change); owner/approver/voter operations signed by somebody else than the named address fail with no writes. 8% of steps are signed by a wrong key; privileged ops use 6 signing modes", map[string]int{"priv": 8, "chain": 3, "cand": 3, "relayer": 2, "node": 2, "import": 2, "sig": 1, "forge": 10}, []string{"privileged_without_witness_rejected", "owner_op_without_witness_rejected", "privileged_with_operator_witness"}},
 		def{"C20", base + "oracle: per (source chain, cross-chain id) at most one acceptance; the done mark appears exactly with the acceptance; replayed rounds (same and altered payload) fail without writes", map[string]int{"import": 12, "chain": 3, "priv": 1, "cand": 1, "node": 1, "relayer": 0, "replay": 1}, []string{"import_released", "replay_rejected"}},
 		def{"C21", base + "oracle: an import whose source or destination chain is unregistered or blacklisted in the pre-state fails with no writes; whitelisting restores acceptance", map[string]int{"import": 10, "priv": 5, "chain": 4, "cand": 1, "node": 1, "relayer": 0}, []string{"import_rejected_source_gate", "import_rejected_destination_gate", "import_released", "privileged_succeeded:blackchain"}},
@@ -308,11 +354,11 @@ func init() {
 			QuickRuns:      96, ThoroughRuns: 6000, QuickCap: 100, ThoroughCap: 900,
 			RequiredProbes: d.probes,
 			Generate: func(rng *kernel.RNG, idx int, tier string) *kernel.Plan {
-				var extra func(rng *kernel.RNG, steps []kernel.Step) []kernel.Step
-				if d.w["replay"] > 0 {
-					extra = addReplays
+				pl := govPlan(rng, tier, d.w, extras[d.id])
+				if d.w["strict"] > 0 && rng.Chance(0.5) {
+					pl.Cfg["net"], pl.Cfg["legacyheight"] = 1, 0
 				}
-				return govPlan(rng, tier, d.w, extra)
+				return pl
 			},
 			Execute:        execGov})
 	}
